@@ -12,6 +12,10 @@ rundemo() {
     cp "$d"/demo_test.go "$wt/$3"/zz_seed_demo_test.go
     go test -vet=off -count=1 "./$3" -run "$4" >/tmp/demo-$$.log 2>&1; rc=$?
     rm -f "$wt/$3"/zz_seed_demo_test.go
+  elif [ "$kind" = tagtestin ]; then
+    cp "$d"/demo_test.go "$wt/$3"/zz_seed_demo_test.go
+    go test -tags seeddemo -vet=off -count=1 "./$3" -run "$4" >/tmp/demo-$$.log 2>&1; rc=$?
+    rm -f "$wt/$3"/zz_seed_demo_test.go
   elif [ "$kind" = tagtest ]; then
     mkdir -p "$wt/seed-demo" && cp "$d"/demo_test.go "$wt/seed-demo"/
     go test -tags seeddemo -vet=off -count=1 ./seed-demo/ >/tmp/demo-$$.log 2>&1; rc=$?
